@@ -52,7 +52,7 @@ func c02Count(c *Ctx) {
 	var counter FieldRef
 	for _, fr := range fields {
 		n++
-		if fr.Field == actualField("retrypolicy", "executor", "failedAttempts") {
+		if fr.Field == "failedAttempts" {
 			counter = fr
 		}
 		ok := true
@@ -119,7 +119,7 @@ func execStateFieldsEx(p *Program, pkg string, named *types.Named) []stateField 
 			if f.Embedded() {
 				continue
 			}
-			out = append(out, stateField{Ref: FieldRef{Type: typeCanonName(named.Obj()), Pkg: pkg, Field: f.Name()}, Part: n.Obj().Name(), Typ: f.Type()})
+			out = append(out, stateField{Ref: canonRef(FieldRef{Type: typeCanonName(named.Obj()), Pkg: pkg, Field: f.Name()}), Part: n.Obj().Name(), Typ: f.Type()})
 		}
 	}
 	walk(named, 0)
@@ -179,7 +179,7 @@ func configImmutable(c *Ctx, pkg string) {
 			if i := strings.LastIndex(relName, "/"); i >= 0 {
 				relName = relName[i+1:]
 			}
-			fr := FieldRef{Type: t.typ, Pkg: relName, Field: f.Name()}
+			fr := canonRef(FieldRef{Type: t.typ, Pkg: relName, Field: f.Name()})
 			ok := true
 			for _, wa := range ix.WriteAccesses(fr) {
 				w := wa.Fn
@@ -200,7 +200,7 @@ func configImmutable(c *Ctx, pkg string) {
 	policyType := map[string]string{"retrypolicy": "retryPolicy", "hedgepolicy": "hedgePolicy", "fallback": "fallback", "timeout": "timeout",
 		"cachepolicy": "cachePolicy", "ratelimiter": "rateLimiter", "bulkhead": "bulkhead", "circuitbreaker": "circuitBreaker"}[pkg]
 	for _, f := range c.P.structFields(pkg, policyType) {
-		fr := FieldRef{Type: policyType, Pkg: pkg, Field: f.Name()}
+		fr := canonRef(FieldRef{Type: policyType, Pkg: pkg, Field: f.Name()})
 		ok := true
 		for _, wa := range ix.WriteAccesses(fr) {
 			w := wa.Fn
